@@ -6,21 +6,15 @@ RULE = ("correspondence: from_sources on sequences (all pairs over a 60-document
         "is_superset / is_superset_checked / is_subset of every source against the merged shape, is_subset(s,s) on level-1 and "
         "random deep shapes. oracle: the property statement itself on the implementation; a failure whose merged shape is "
         "OneOf-free (decided by the extracted oneof_free) is an unlisted violation, the complement is known class KF2. "
-        "non-trivial = sequence with >=2 distinct sources; distinct = distinct (sequence, source) pair")
+        "violation search: when the correspondence breaks and no unlisted rejection was found, the disagreeing sequences are varied (rotations, one more pool document at every position) and judged the same way. non-trivial = sequence with >=2 distinct sources; distinct = distinct (sequence, source) pair")
 ASSUMPTIONS = ["documents rendered canonically", "known class KF2 = merged shape has a OneOf node with a variant that is not a non-optional scalar (decidable predicate scalar_oneofs from Model/OneOfClass.v = false)"]
 
-def run(ctx):
-    base = [doc_str(d) for d in vlib.BASE_DOCS]
-    seqs = [[a] for a in base] + [[a, b] for a in base for b in base]
-    pool = base + [doc_str(vlib.rand_doc(ctx.rng, 3)) for _ in range(300)]
-    for _ in range(1500 if ctx.tier == "quick" else 40000):
-        k = ctx.rng.choice([2, 3, 3, 4, 5, 6])
-        seqs.append([ctx.rng.choice(pool) for _ in range(k)])
-    seqs += [[doc_str(d) for d in s] for s in vlib.scale_seqs()]       # scale / rare-feature stream
+def eval_seqs(ctx, seqs, tag):
+    """the property statement on the implementation for every sequence; returns the (sequence, source, merged) triples"""
     lines = ["from_sources\t" + "\t".join(s) for s in seqs]
-    res, _ = ctx.correspond(lines, "from_sources on sequences", lambda l, r: len(set(l.split("\t")[1:])) >= 2)
+    res, _ = ctx.correspond(lines, "from_sources on sequences" + tag, lambda l, r: len(set(l.split("\t")[1:])) >= 2)
     if res and res[0] is None:
-        return
+        return None
     docs = list(dict.fromkeys(d for s in seqs for d in s))
     single = dict(zip(docs, ctx.impl(["infer_text\t" + d for d in docs])))
     q, meta = [], []
@@ -34,25 +28,71 @@ def run(ctx):
             q += ["superset\t%s\t%s" % (r[3:], d), "superset_checked\t%s\t%s" % (r[3:], d),
                   "subset\t%s\t%s" % (sd[3:], r[3:])]
             meta.append((l, d, r[3:]))
-    out, _ = ctx.correspond(q, "is_superset / is_superset_checked / is_subset of each source against the merged shape",
-                            lambda l, r: r == "BOOL 1")
+    out, outm = ctx.correspond(q, "is_superset / is_superset_checked / is_subset of each source against the merged shape" + tag,
+                               lambda l, r: r == "BOOL 1")
     bad = []
     for i, (l, d, m) in enumerate(meta):
         a, b, c = out[3 * i: 3 * i + 3]
         if (a, b, c) != ("BOOL 1", "BOOL 1", "BOOL 1"):
-            bad.append((l, d, m, [a, b, c]))
+            bad.append((l, d, m, [a, b, c], list(outm[3 * i: 3 * i + 3])))
+    ctx.notes["_rej"] = ctx.notes.get("_rej", 0) + len(bad)
     if bad:
-        of = vlib.model_bools(["scalar_oneofs\t" + m for _, _, m, _ in bad])
-        for (l, d, m, r), free in zip(bad, of):
-            ctx.fail("merged shape does not accept one of its own sources", l, {"source": d, "merged": m, "answers": r},
-                     known=None if free else "KF2")
+        of = vlib.model_bools(["scalar_oneofs\t" + m for _, _, m, _, _ in bad])
+        for (l, d, m, r, rm), free in zip(bad, of):
+            # KF2 is the recorded defect of the code as modelled: a rejection that the model of the recorded code does
+            # NOT share (model answers yes three times on the very same merged shape) is a different violation
+            recorded = rm != ["BOOL 1", "BOOL 1", "BOOL 1"]
+            ctx.fail("merged shape does not accept one of its own sources", l,
+                     {"source": d, "merged": m, "answers": r, "answers_of_the_model_of_the_recorded_code": rm},
+                     known="KF2" if (not free and recorded) else None)
+    if not hasattr(ctx, "_seq_of"):
+        ctx._seq_of = {}
+    for s, l, r in zip(seqs, lines, res):
+        if r.startswith("OK "):
+            ctx._seq_of.setdefault(r[3:], []).append(list(s))
+    return meta
+
+def run(ctx):
+    base = [doc_str(d) for d in vlib.BASE_DOCS]
+    seqs = [[a] for a in base] + [[a, b] for a in base for b in base]
+    pool = base + [doc_str(vlib.rand_doc(ctx.rng, 3)) for _ in range(300)]
+    for _ in range(1500 if ctx.tier == "quick" else 40000):
+        k = ctx.rng.choice([2, 3, 3, 4, 5, 6])
+        seqs.append([ctx.rng.choice(pool) for _ in range(k)])
+    seqs += [[doc_str(d) for d in s] for s in vlib.scale_seqs()]       # scale / rare-feature stream
+    meta = eval_seqs(ctx, seqs, "")
+    if meta is None:
+        return
+    # ---- violation search: the correspondence broke but no source was rejected outside the recorded class:
+    # look for a failing sequence in the neighbourhood of the disagreeing cases (one more document of the pool
+    # inserted at every position, and every rotation), judged exactly as above
+    if ctx.disagreements and not ctx.failures:
+        near = []
+        for dis in ctx.disagreements[:24]:
+            f = dis["case"].split("\t")
+            if f[0] == "from_sources":
+                near.append(f[1:])
+            elif f[0] in ("superset", "superset_checked", "subset"):
+                near += [sq for sq in ctx._seq_of.get(f[-1] if f[0] == "subset" else f[1], [])][:2]
+        cand, seen = [], set()
+        for sq in near[:24]:
+            var = [sq[i:] + sq[:i] for i in range(1, len(sq))]
+            for d in pool[:400]:
+                var += [sq[:pos] + [d] + sq[pos:] for pos in range(len(sq) + 1)]
+            for v in var:
+                if tuple(v) not in seen:
+                    seen.add(tuple(v)); cand.append(v)
+        ctx.notes["violation_search_sequences"] = len(cand)
+        if cand:
+            eval_seqs(ctx, cand, " (violation search around the disagreeing cases)")
     ctx.notes["source_checks"] = len(meta)
     merged = list(dict.fromkeys(m for _, _, m in meta))
     cls = dict(zip(merged, vlib.model_bools(["scalar_oneofs\t" + m for m in merged])))
     fre = dict(zip(merged, vlib.model_bools(["oneof_free\t" + m for m in merged])))
     ctx.notes["source_checks_in_theorem_class"] = sum(1 for _, _, m in meta if cls[m])
     ctx.notes["source_checks_in_theorem_class_with_a_OneOf"] = sum(1 for _, _, m in meta if cls[m] and not fre[m])
-    ctx.notes["rejected_own_source"] = len(bad)
+    ctx.notes["rejected_own_source"] = ctx.notes.get("_rej", 0)
+    ctx.notes.pop("_rej", None)
     # every shape is accepted by itself
     shapes = vlib.level1() + [vlib.rand_shape(ctx.rng, 4) for _ in range(1500 if ctx.tier == "quick" else 30000)]
     ls = ["subset\t%s\t%s" % (sh_str(s), sh_str(s)) for s in shapes] + ["subset\t%s\t%s" % (t, t) for t in vlib.scale_shapes()]
